@@ -1,14 +1,19 @@
 """C01 — generated Verilog behaves exactly like the simulated FHDL design.
 
 Three-way tie (see DESIGN §7.C01):
-  (i)   printer correspondence : Lean `printE`/`printStmt` of the serialised real FHDL tree == the tree parsed
-                                 from the text the real printer emitted, node by node;
-  (ii)  simulator correspondence: Lean `evalF`/`stepF` == the real `Evaluator` on the same stimuli;
+  (i)   printer correspondence : Lean `printE`/`printModule` of the serialised real (lowered) FHDL tree == the
+                                 tree parsed from the text the real printer emitted, node by node (expressions,
+                                 statements, items, declarations with their initialisers);
+  (ii)  simulator correspondence: Lean `evalF`/`stepF` == the real `Evaluator` on the same stimuli, all signals;
   (iii) Lean as Verilog simulator: `evalV`/`stepV` on the parsed REAL text == `evalF`/`stepF` whenever the side
-                                 condition `Fits` of the theorem holds; inputs on which it does not hold and the
-                                 two semantics part are overflow-site witnesses (tracked, not alarms).
+                                 condition `Fits` of the theorems holds; inputs on which it does not hold and
+                                 the two semantics part are overflow-site witnesses (tracked, not alarms);
+  (iv)  lowering               : the real Evaluator on the ORIGINAL design == on the lowered fragment that was
+                                 printed (ports), which ties `_ComplexSliceLowerer` and the other passes in.
+Real cores: every statically non-fitting site (keyed by core + kind + name-normalised printed text) must be in
+corpus/C01/overflow_sites.json; a new site is a VIOLATION.
 """
-import itertools, json, os, time
+import itertools, json, os, re, time, random, traceback
 import c01lib as L
 from c01lib import SigIds, FlatNS, ExprGen, ser_expr, parse_vexpr, truncate, make_sigs, sig_range, used_signals
 from litex.gen.fhdl.expression import _generate_expression
@@ -16,6 +21,7 @@ from litex.gen.sim.core import Evaluator
 
 VERIF = os.path.dirname(os.path.dirname(os.path.dirname(os.path.abspath(__file__))))
 CORPUS = os.path.join(VERIF, "corpus", "C01")
+SITES_FILE = os.path.join(CORPUS, "overflow_sites.json")
 
 
 class Dis:
@@ -87,7 +93,7 @@ def check_expr_batch(ctx, cases, dis, stats, witnesses):
         except (L.ParseError, L.Unsupported) as ex:
             dis.append(Dis("parse", tag=c["tag"], error=repr(ex)))
             continue
-        # real simulator
+        c["text"] = text
         ev = Evaluator([], {})
         real = []
         for env in c["envs"]:
@@ -115,7 +121,11 @@ def check_expr_batch(ctx, cases, dis, stats, witnesses):
                            what="Lean printE differs from the tree parsed from the real text"))
             stats["printer_diff"] += 1
             continue
-        stats["printed"] += 1
+        static = head[2] == "1"
+        if "static" not in c:
+            c["static"] = static
+            stats["printed"] += 1
+            stats["static_fit"] += 1 if static else 0
         for env, rv, p in zip(chunk, real, parts[1:]):
             f, af, av, fits = int(p[0]), int(p[1]), int(p[2]), p[3] == "1"
             stats["evals"] += 1
@@ -128,8 +138,11 @@ def check_expr_batch(ctx, cases, dis, stats, witnesses):
                 dis.append(Dis("evalF", tag=c["tag"], text=text, env=env, lean=f, real=int(rv)))
                 continue
             if af != truncate(int(rv), c["lw"], False):
-                dis.append(Dis("assignF", tag=c["tag"], text=text, env=env, lean=af, real=int(rv)))
+                dis.append(Dis("storeF", tag=c["tag"], text=text, env=env, lean=af, real=int(rv)))
                 continue
+            if static and not fits:
+                dis.append(Dis("static-unsound", tag=c["tag"], text=text, env=env,
+                               what="staticallyFits holds but Fits fails on an in-range valuation"))
             if fits:
                 stats["fits"] += 1
                 if av != af:
@@ -140,6 +153,7 @@ def check_expr_batch(ctx, cases, dis, stats, witnesses):
                 stats["nonfit"] += 1
                 if av != af:
                     stats["nonfit_differ"] += 1
+                    c["witness"] = True
                     if len(witnesses) < 6:
                         witnesses.append({"text": text, "lw": c["lw"], "env": env, "verilog": av, "fhdl": af})
         if len(dis) > 20:
@@ -148,7 +162,8 @@ def check_expr_batch(ctx, cases, dis, stats, witnesses):
 
 def l1_random(ctx, n_expr, dis):
     rng = ctx.rng
-    stats = dict(printed=0, printer_diff=0, evals=0, fits=0, nonfit=0, nonfit_differ=0, neg_shift=0, exhaustive=0)
+    stats = dict(printed=0, printer_diff=0, evals=0, fits=0, nonfit=0, nonfit_differ=0, neg_shift=0, exhaustive=0,
+                 static_fit=0)
     witnesses = []
     cases = []
     for k in range(n_expr):
@@ -167,8 +182,8 @@ def l1_random(ctx, n_expr, dis):
                 break
     if cases:
         check_expr_batch(ctx, cases, dis, stats, witnesses)
-    ctx.cov.add_cases("L1 random expressions (%d, %d exhaustive over inputs)" % (n_expr, stats["exhaustive"]),
-                      stats["evals"], stats["fits"], exhaustive=False)
+    ctx.cov.add_cases("L1 random expressions (%d, %d exhaustive over inputs, %d statically fitting)" % (
+        n_expr, stats["exhaustive"], stats["static_fit"]), stats["evals"], stats["fits"], exhaustive=False)
     for k, v in stats.items():
         ctx.cov.count("l1." + k, v)
     ctx.cov.samples += witnesses[:3]
@@ -176,14 +191,461 @@ def l1_random(ctx, n_expr, dis):
     return stats
 
 
+# ----------------------------------------------------------------------------------------------------------
+# L2: modules
+# ----------------------------------------------------------------------------------------------------------
+
+_IDENT = re.compile(r"(?<![A-Za-z0-9_$'])[A-Za-z_][A-Za-z0-9_$]*")
+
+
+def normalise_site(text):
+    """Replace identifiers by $0, $1, … in order of first occurrence (robust against renaming/renumbering)."""
+    seen = {}
+
+    def sub(m):
+        w = m.group(0)
+        if w == "$signed":
+            return w
+        if w not in seen:
+            seen[w] = "$%d" % len(seen)
+        return seen[w]
+    return _IDENT.sub(sub, text)
+
+
+class ModuleResult:
+    def __init__(self, name):
+        self.name = name
+        self.status = "ok"
+        self.cycles = 0
+        self.nsigs = 0
+        self.nsites = 0
+        self.static_sites = []      # [(kind, normalised text)]
+        self.witnessed = set()      # subset with an observed Verilog/FHDL divergence
+        self.mism_cycles = 0
+        self.fit_cycles = 0
+        self.uninit = []
+        self.lowering_known = False
+
+
+def stimulus(rng, inputs, rsts, prev, t):
+    vals = []
+    for k, s in enumerate(inputs):
+        if any(s is r for r in rsts):
+            v = 1 if (t == 1 or rng.random() < 0.02) else 0
+        elif prev is not None and rng.random() < 0.25:
+            v = prev[k]
+        elif rng.random() < 0.15:
+            v = rng.choice([0, (1 << s.nbits) - 1, 1, 1 << (s.nbits - 1)])
+        else:
+            v = rng.randrange(0, 1 << s.nbits)
+        vals.append(v)
+    return vals
+
+
+def run_module_case(lean, rng, name, build, cycles, dis, with_orig=True, fuel=64):
+    """build() -> (fragment-or-module, ios list, clock-domain names); deterministic (called twice)."""
+    from migen.fhdl.tools import list_targets, list_special_ios
+    res = ModuleResult(name)
+    try:
+        fB, iosB, cds = build()
+        cap = L.convert_capture(fB, iosB)
+        ids, sigs, groups, secs = L.ser_module(cap)
+        name_ids = {cap.ns.get_name(s): ids.get(s) for s in sigs}
+        mt = L.parse_module(cap.text, name_ids)
+        if mt.unsupported:
+            raise L.Unsupported("; ".join(mt.unsupported[:3]))
+        items, decls = L.ser_vmodule(mt, name_ids)
+    except L.Unsupported as ex:
+        res.status = "unsupported: " + str(ex)[:120]
+        return res
+    except L.ParseError as ex:
+        res.status = "parse-error"
+        dis.append(Dis("module-parse", module=name, error=str(ex)[:300]))
+        return res
+    f = cap.f
+    res.nsigs = len(sigs)
+    targets = list_targets(f) | list_special_ios(f, ins=False, outs=True, inouts=True)
+    clks = [cd.clk for cd in f.clock_domains]
+    rsts = [cd.rst for cd in f.clock_domains if cd.rst is not None]
+    in_idx = [k for k, s in enumerate(iosB) if s not in targets and not any(s is c for c in clks)]
+    inputs = [iosB[k] for k in in_idx]
+    out_idx = [k for k, s in enumerate(iosB) if s in targets]
+    rl = L.RealLowered(cap)
+    nl = None
+    fA0 = None
+    if with_orig:
+        try:
+            from netlist import Netlist
+            fA, iosA, cdsA = build()
+            fA0 = snapshot_stmts(fA)
+            nl = Netlist(fA, clocks=tuple(cdsA))
+            if len(iosA) != len(iosB):
+                raise RuntimeError("non-deterministic build")
+        except Exception as ex:  # original not simulable (e.g. specials): skip tie (iv)
+            nl = None
+            res.status = "ok (no original-vs-lowered tie: %s)" % type(ex).__name__
+    cyc = []
+    real = []
+    orig_vs_low = None
+    prev = None
+    for t in range(cycles):
+        vals = stimulus(rng, inputs, rsts, prev, t)
+        prev = vals
+        for s, v in zip(inputs, vals):
+            rl.set(s, v)
+        rl.settle()
+        real.append([rl.get(s) for s in sigs])
+        if nl is not None and orig_vs_low is None:
+            for k, v in zip(in_idx, vals):
+                nl.set(iosA[k], v)
+            nl.settle()
+            for k in out_idx:
+                a = nl.getu(iosA[k])
+                b = rl.get(iosB[k]) & ((1 << iosB[k].nbits) - 1)
+                if a != b:
+                    orig_vs_low = dict(cycle=t, port=cap.ns.get_name(iosB[k]), original=a, lowered=b)
+                    break
+            nl.tick(tuple(cdsA))
+        rl.tick(clks)
+        cyc.append("%d %s %s" % (len(clks), " ".join(str(ids.get(c)) for c in clks), " ".join(map(str, vals))))
+    if orig_vs_low is not None and signed_full_slices(fA0):
+        res.lowering_known = True
+    elif orig_vs_low is not None:
+        dis.append(Dis("lowering", module=name, what="real Evaluator on the original design differs from the real "
+                       "Evaluator on the lowered fragment that was printed", **orig_vs_low))
+    line = "sim %d ; %s ; %s ; %s ; %s ; %s ; %s ; %s ; %s ; %s" % (
+        fuel, " ".join(secs["sigs"]), " ".join(secs["comb"]), " ".join(secs["sync"]), " ".join(items),
+        " ".join(decls),
+        " ".join([str(len(cap.ios))] + [str(ids.get(s)) for s in sorted(cap.ios, key=lambda s: s.duid)]),
+        " ".join([str(len(inputs))] + [str(ids.get(s)) for s in inputs]),
+        " ".join([str(len(sigs))] + [str(k) for k in range(len(sigs))]),
+        " ; ".join(cyc))
+    ans = lean.call_batch([line])[0]
+    if ans.startswith("bad"):
+        dis.append(Dis("driver", module=name, answer=ans[:100]))
+        res.status = "driver-error"
+        return res
+    parts = ans.split(" ; ")
+    head, _, ssites = parts[0].partition("!")
+    hw = head.split()
+    if hw[0] != "ok":
+        dis.append(Dis("module-printer", module=name, where=hw[0],
+                       what="Lean printModule differs from the items parsed from the real text"))
+    if hw[1] != "ok":
+        dis.append(Dis("module-decls", module=name, where=hw[1],
+                       what="declaration kind/type/initialiser differs from the model of _generate_signals"))
+    res.nsites = int(hw[2])
+    # site texts
+    site_text = []
+    for tg, st in groups:
+        L.stmt_sites(st, cap.ns, site_text)
+    for cdname, st in f.sync.items():
+        L.stmt_sites(st, cap.ns, site_text)
+    if len(site_text) != res.nsites:
+        dis.append(Dis("site-numbering", module=name, python=len(site_text), lean=res.nsites))
+        return res
+    norm = [(k, normalise_site(t)) for k, t in site_text]
+    res.static_sites = sorted({norm[int(i)] for i in ssites.split()})
+    prev_nonfit = []
+    prev_fits = True
+    for t, (p, rv) in enumerate(zip(parts[1:], real)):
+        body, _, nf = p.partition("!")
+        ws = body.split()
+        mism, fits = int(ws[0]), ws[1] == "1"
+        fv = [int(x) for x in ws[2:]]
+        nonfit = [int(i) for i in nf.split()]
+        res.cycles += 1
+        res.fit_cycles += 1 if fits else 0
+        if fv != rv:
+            k = next(i for i in range(len(rv)) if fv[i] != rv[i])
+            dis.append(Dis("stepF", module=name, cycle=t, signal=cap.ns.get_name(sigs[k]), lean=fv[k], real=int(rv[k]),
+                           what="Lean stepF differs from the real Evaluator on the lowered fragment"))
+            break
+        if mism:
+            res.mism_cycles += 1
+            s = sigs[mism - 1]
+            sname = cap.ns.get_name(s)
+            d = mt.decls.get(sname)
+            if t == 0 and d is not None and d["kind"] == "or" and s.reset.value != 0:
+                # `output reg` ports carry no initialiser in the text: power-up value differs from Signal.reset
+                res.uninit.append(sname)
+                if fits and prev_fits:
+                    prev_fits, prev_nonfit = fits, nonfit
+                    continue
+            if fits and prev_fits:
+                dis.append(Dis("theorem-contradicted", module=name, cycle=t, signal=sname,
+                               what="all side conditions hold but stepV (real text) and stepF differ"))
+                break
+            for i in set(nonfit) | set(prev_nonfit):
+                res.witnessed.add(norm[i])
+        prev_fits, prev_nonfit = fits, nonfit
+    return res
+
+
+def snapshot_stmts(f):
+    """Statement lists of the original fragment (before the Simulator mutates it)."""
+    return [list(f.comb)] + [list(v) for v in f.sync.values()]
+
+
+def signed_full_slices(stmt_lists):
+    """KNOWN REGION (finding C01-signed-full-slice): does the original design contain `v[0:len(v)]` with a
+    signed `v`?  `_ComplexSliceLowerer` drops such slices although a Migen slice is unsigned."""
+    from migen.fhdl.structure import _Slice, _Operator, _Assign, If, Case, Cat, Replicate
+    from migen.fhdl.bitcontainer import value_bits_sign
+    found = []
+
+    def ve(e):
+        if isinstance(e, _Slice):
+            n, sgn = value_bits_sign(e.value)
+            if sgn and e.start == 0 and e.stop == n:
+                found.append(e)
+            ve(e.value)
+        elif isinstance(e, _Operator):
+            for o in e.operands:
+                ve(o)
+        elif isinstance(e, Cat):
+            for o in e.l:
+                ve(o)
+        elif isinstance(e, Replicate):
+            ve(e.v)
+
+    def vs(ss):
+        for s in ss:
+            if isinstance(s, _Assign):
+                ve(s.l)
+                ve(s.r)
+            elif isinstance(s, If):
+                ve(s.cond)
+                vs(s.t)
+                vs(s.f)
+            elif isinstance(s, Case):
+                ve(s.test)
+                for v in s.cases.values():
+                    vs(v)
+            elif isinstance(s, (list, tuple)):
+                vs(s)
+    for l in stmt_lists:
+        vs(l)
+    return found
+
+
+def random_module_build(seed, maxw):
+    def build():
+        rng = random.Random(seed)
+        m, ios = L.random_module(rng, maxw=maxw)
+        f = m.get_fragment()
+        ios = sorted(ios, key=lambda s: s.duid)
+        return f, ios, ["sys"]
+    return build
+
+
+def l2_random(ctx, n_mod, cycles, dis):
+    rng = ctx.rng
+    tot = dict(modules=0, unsupported=0, cycles=0, fit_cycles=0, mism_cycles=0, sites=0, static_nonfit=0,
+               witnessed=0, uninit_output_reg=0, lowering_known_region=0)
+    for k in range(n_mod):
+        seed = rng.randrange(1 << 30)
+        r = run_module_case(ctx.lean, rng, "randmod%d" % k, random_module_build(seed, rng.choice([3, 5, 9])),
+                            cycles, dis)
+        tot["modules"] += 1
+        if r.status.startswith("unsupported"):
+            tot["unsupported"] += 1
+        tot["cycles"] += r.cycles
+        tot["fit_cycles"] += r.fit_cycles
+        tot["mism_cycles"] += r.mism_cycles
+        tot["sites"] += r.nsites
+        tot["static_nonfit"] += len(r.static_sites)
+        tot["witnessed"] += len(r.witnessed)
+        tot["uninit_output_reg"] += len(r.uninit)
+        tot["lowering_known_region"] += 1 if r.lowering_known else 0
+        if len(dis) > 10:
+            break
+    ctx.cov.add_cases("L2 random modules (%d, %d cycles each, all signals compared)" % (n_mod, cycles),
+                      tot["cycles"], tot["fit_cycles"], exhaustive=False)
+    for k, v in tot.items():
+        ctx.cov.count("l2rand." + k, v)
+    ctx.log("L2 random modules: %s" % tot)
+
+
+# ---- real cores ------------------------------------------------------------------------------------------
+
+def core_builders(tier):
+    from migen import Signal, Record
+    from litex.soc.interconnect import stream, wishbone
+    from litex.soc.cores.timer import Timer
+    from litex.soc.cores.pwm import PWM
+    from litex.soc.cores.led import LedChaser
+    from litex.soc.cores.gpio import GPIOOut
+    from litex.soc.cores.spi.spi_master import SPIMaster
+    from litex.soc.cores.uart import RS232PHYTX
+    from litex.soc.cores.watchdog import Watchdog
+    from litex.soc.cores.code_8b10b import Encoder
+    from litex.soc.cores.ecc import ECCEncoder, ECCDecoder
+    from litex.soc.cores.prbs import PRBS7Generator, PRBS15Generator
+    L8 = [("data", 8)]
+    L3 = [("data", 3)]
+    B = []
+    add = lambda name, mk: B.append((name, mk))
+    add("stream.PipeValid/8", lambda: stream.PipeValid(L8))
+    add("stream.PipeReady/8", lambda: stream.PipeReady(L8))
+    add("stream.Buffer/8", lambda: stream.Buffer(L8))
+    add("stream._UpConverter/8->32", lambda: stream._UpConverter(8, 32, 4, False))
+    add("stream._UpConverter/3->9r", lambda: stream._UpConverter(3, 9, 3, True))
+    add("stream._DownConverter/32->8", lambda: stream._DownConverter(32, 8, 4, False))
+    add("stream.Converter/8->24", lambda: stream.Converter(8, 24))
+    add("stream.Converter/24->8", lambda: stream.Converter(24, 8))
+    add("stream.Gearbox/8->12", lambda: stream.Gearbox(8, 12))
+    add("stream.Gearbox/10->4", lambda: stream.Gearbox(10, 4))
+    add("stream.Multiplexer/3", lambda: stream.Multiplexer(L8, 3))
+    add("stream.Demultiplexer/3", lambda: stream.Demultiplexer(L8, 3))
+    add("stream.Pack/3", lambda: stream.Pack(L8, 3))
+    add("stream.Unpack/3", lambda: stream.Unpack(3, L8))
+    add("stream.Gate", lambda: stream.Gate(L3))
+    add("Timer", lambda: Timer())
+    add("Timer/16", lambda: Timer(width=16))
+    add("PWM", lambda: PWM())
+    add("LedChaser", lambda: LedChaser(Signal(4), 1e3))
+    add("GPIOOut", lambda: GPIOOut(Signal(8)))
+    add("SPIMaster/8", lambda: SPIMaster(None, 8, 1e6, 1e5))
+    add("SPIMaster/24", lambda: SPIMaster(None, 24, 1e6, 2.5e5))
+    add("Watchdog", lambda: Watchdog())
+    add("RS232PHYTX", lambda: RS232PHYTX(Record([("tx", 1), ("rx", 1)]), Signal(32, reset=1 << 29)))
+    add("8b10b.Encoder/2", lambda: Encoder(2))
+    add("ECCEncoder/8", lambda: ECCEncoder(8))
+    add("ECCDecoder/8", lambda: ECCDecoder(8))
+    add("PRBS7Generator/8", lambda: PRBS7Generator(8))
+    add("PRBS15Generator/4", lambda: PRBS15Generator(4))
+    add("wishbone.Arbiter/2", lambda: wishbone.Arbiter([wishbone.Interface() for _ in range(2)], wishbone.Interface()))
+    add("wishbone.Decoder/2", lambda: wishbone.Decoder(
+        wishbone.Interface(), [((lambda k: (lambda a: a[8:] == k))(k), wishbone.Interface()) for k in range(2)]))
+    add("wishbone.Decoder/2/registered", lambda: wishbone.Decoder(
+        wishbone.Interface(), [((lambda k: (lambda a: a[8:] == k))(k), wishbone.Interface()) for k in range(2)], register=True))
+    add("wishbone.Timeout/8", lambda: wishbone.Timeout(wishbone.Interface(), 8))
+    add("wishbone.DownConverter/32->8", lambda: wishbone.DownConverter(
+        wishbone.Interface(data_width=32, adr_width=30), wishbone.Interface(data_width=8, adr_width=32)))
+    add("wishbone.UpConverter? n/a", None)
+    if tier != "quick":
+        add("stream._UpConverter/8->64", lambda: stream._UpConverter(8, 64, 8, False))
+        add("stream.Gearbox/32->20", lambda: stream.Gearbox(32, 20))
+        add("stream.Converter/16->48", lambda: stream.Converter(16, 48))
+        add("8b10b.Encoder/4", lambda: Encoder(4))
+        add("ECCEncoder/32", lambda: ECCEncoder(32))
+        add("ECCDecoder/32", lambda: ECCDecoder(32))
+        add("wishbone.Arbiter/4", lambda: wishbone.Arbiter([wishbone.Interface() for _ in range(4)], wishbone.Interface()))
+    return [(n, mk) for n, mk in B if mk is not None]
+
+
+def core_build(mk):
+    def build():
+        dut = mk()
+        return L.prepare(dut)
+    return build
+
+
+def load_sites():
+    if os.path.exists(SITES_FILE):
+        return json.load(open(SITES_FILE))
+    return {"sites": {}}
+
+
+def l2_cores(ctx, cycles, dis):
+    known = load_sites()["sites"]
+    write = os.environ.get("C01_WRITE_SITES") == "1"
+    found = {}
+    tot = dict(cores=0, unsupported=0, cycles=0, fit_cycles=0, mism_cycles=0, sites=0, static_nonfit=0,
+               witnessed=0, new_sites=0, signals=0)
+    for name, mk in core_builders(ctx.tier):
+        t0 = time.time()
+        try:
+            r = run_module_case(ctx.lean, ctx.rng, name, core_build(mk), cycles, dis)
+        except Exception as ex:
+            traceback.print_exc()
+            dis.append(Dis("core-exception", module=name, error=repr(ex)[:300]))
+            continue
+        tot["cores"] += 1
+        if not r.status.startswith("ok"):
+            tot["unsupported"] += 1
+            ctx.cov.notes.append("core %s: %s" % (name, r.status))
+            continue
+        tot["cycles"] += r.cycles
+        tot["fit_cycles"] += r.fit_cycles
+        tot["mism_cycles"] += r.mism_cycles
+        tot["sites"] += r.nsites
+        tot["signals"] += r.nsigs
+        tot["static_nonfit"] += len(r.static_sites)
+        tot["witnessed"] += len(r.witnessed)
+        entries = {}
+        for kind, text in r.static_sites:
+            key = "%s: %s" % (kind, text)
+            entries[key] = {"witness": (kind, text) in r.witnessed}
+        for kind, text in r.witnessed:
+            key = "%s: %s" % (kind, text)
+            entries.setdefault(key, {"witness": True})
+        found[name] = entries
+        klist = known.get(name, {})
+        for key, e in entries.items():
+            if key not in klist and not write:
+                tot["new_sites"] += 1
+                dis.append(Dis("new-overflow-site", module=name, site=key, witness=e["witness"],
+                               what="a site where Migen's unbounded and Verilog's context-width arithmetic can part "
+                                    "(staticallyFits fails) that is not in corpus/C01/overflow_sites.json"))
+            elif e["witness"]:
+                ctx.cov.count("site_witnessed")
+                ctx.cov.notes.append("overflow site with reachable witness: %s | %s" % (name, key))
+        if r.uninit:
+            ctx.cov.notes.append("core %s: output reg without initialiser and non-zero reset: %s" % (name, r.uninit))
+        ctx.cov.instances.append({"instance": name, "mode": "B", "cycles": r.cycles, "signals": r.nsigs,
+                                  "sites": r.nsites, "static_nonfit": len(r.static_sites),
+                                  "witnessed": len(r.witnessed), "exhaustive": False,
+                                  "wall_s": round(time.time() - t0, 2)})
+        if len(dis) > 10:
+            break
+    ctx.cov.evaluations += tot["cycles"]
+    ctx.cov.nontrivial += tot["fit_cycles"]
+    for k, v in tot.items():
+        ctx.cov.count("l2cores." + k, v)
+    ctx.log("L2 real cores: %s" % tot)
+    if write:
+        os.makedirs(CORPUS, exist_ok=True)
+        # keep witness=true once seen
+        for name, ent in found.items():
+            for key, e in ent.items():
+                if known.get(name, {}).get(key, {}).get("witness"):
+                    e["witness"] = True
+        json.dump({"_comment": "Statically non-fitting expression sites of the real cores in the C01 corpus (core -> "
+                   "'kind: name-normalised printed text' -> witness seen).  A site not listed here is reported as "
+                   "a VIOLATION.  Regenerate with C01_WRITE_SITES=1 ./check C01 after reviewing the new sites.",
+                   "sites": found}, open(SITES_FILE, "w"), indent=1, sort_keys=True)
+        ctx.log("wrote " + SITES_FILE)
+
+
+# ----------------------------------------------------------------------------------------------------------
+
 def correspond(ctx):
     dis = []
-    n = 600 if ctx.tier == "quick" else 6000
-    l1_random(ctx, n, dis)
+    quick = ctx.tier == "quick"
+    l1_random(ctx, 600 if quick else 6000, dis)
+    if len(dis) <= 10:
+        l2_random(ctx, 40 if quick else 400, 40 if quick else 120, dis)
+    if len(dis) <= 10:
+        l2_cores(ctx, 200 if quick else 2000, dis)
+    ctx.rule = ("L1: one case = one (expression, valuation) evaluated by the real Evaluator, Lean evalF and Lean evalV "
+                "on the real text; non-trivial = Fits holds (the theorem applies and equality was checked). "
+                "L2: one case = one clock cycle of a module with all signals compared three ways.")
+    ctx.extra_trusted = ["IEEE 1364-2005 expression/assignment/always-block semantics as formalised in "
+                         "lean/LitexModel/Verilog/{Expr,Stmt}.lean (no Verilog simulator in the sandbox)",
+                         "harness/c01lib.py: FHDL serialiser and parser of the emitted Verilog subset"]
     return dis
 
 
 def search(ctx, disagreements, proof_info):
+    """A disagreement of kind printer/theorem-contradicted/lowering/stepF already carries the concrete failing
+    input (expression text + valuation, or module + cycle); return the first one as the failing input."""
+    for d in disagreements:
+        j = d.to_json()
+        if j["kind"] in ("theorem-contradicted", "lowering", "printer", "module-printer", "module-decls",
+                         "new-overflow-site", "evalF", "stepF"):
+            return j
     return None
 
 
